@@ -304,6 +304,9 @@ def fit_sym(x, p):
     stream = x.mseq('stream', 0, p['max'])
     n = hx.length(code)
     clen = hx.length(stream)
+    # another cart's code was stored earlier in the same process: nothing of
+    # it may be left in this cart's code area
+    p8png.get_bytes_from_code(bytes(range(1, 200)) * 3)
     if x.symbolic:
         rt.stub(compress.compress_code, lambda c: stream)
         saved = None
@@ -403,6 +406,15 @@ def label_source(x, p):
         src = mine if exists else blank
         label_from = last[0]
         wrote_final = len(final.items) > 0
+        # the picture at the destination is replaced (another label) and the
+        # cart written there again in the same process
+        mine2 = [bytearray((7 * r + 3 * c + 5) % 256 for c in range(W_ * 4))
+                 for r in range(H_)]
+        rt.stub(png.Reader, lambda file=None, **k: FakeReader(
+            mine2 if file.name == dest else blank))
+        rt.stub(os.path.exists, lambda name: True)
+        gfile.to_file(g, dest)
+        rows2 = FakeWriter.captured
     else:
         import png
         d = tempfile.mkdtemp(prefix='c04l')
@@ -423,6 +435,14 @@ def label_source(x, p):
                 filename=dest).read()[2]]
             wrote_final = os.path.getsize(dest) > 0
             label_from = dest if exists else p8png.EMPTY_LABEL_FNAME
+            mine2 = [bytearray((7 * r + 3 * c + 5) % 256
+                               for c in range(W_ * 4)) for r in range(H_)]
+            with open(dest, 'wb') as fh:
+                png.Writer(W_, H_, alpha=True, greyscale=False,
+                           bitdepth=8).write(fh, mine2)
+            gfile.to_file(g, dest)
+            rows2 = [bytearray(r) for r in png.Reader(
+                filename=dest).read()[2]]
         finally:
             for f in os.listdir(d):
                 os.remove(os.path.join(d, f))
@@ -437,6 +457,13 @@ def label_source(x, p):
             if (rows[r][c] & 252) != (src[r][c] & 252):
                 ok = False
     x.check('written pixels keep the label source in the upper six bits', ok)
+    ok2 = True
+    for r in (0, 1, 100, 204):
+        for c in range(0, W_ * 4, 37):
+            if (rows2[r][c] & 252) != (mine2[r][c] & 252):
+                ok2 = False
+    x.check('a second write over a replaced picture keeps the new picture',
+            ok2)
 
 
 Q = {'_budget': 400}
